@@ -2,7 +2,9 @@ package gorums
 
 import (
 	"context"
+	"errors"
 	"fmt"
+	"io"
 	"math"
 	"math/rand"
 	"sync"
@@ -207,6 +209,11 @@ func (c *channel) sendMsg(req request) (err error) {
 	if err != nil {
 		c.setLastErr(err)
 		c.streamBroken.set()
+		if errors.Is(err, io.EOF) {
+			// SendMsg reports a terminated stream as a bare io.EOF;
+			// report it to the caller as an unavailable stream instead.
+			err = streamDownErr
+		}
 	}
 
 	close(done)
